@@ -683,6 +683,8 @@ impl Handler {
                 node = %request_call.contact(),
                 "Authentication response already sent. Dropping session.",
             );
+            // The request was taken out of the active requests above: drop its expected response.
+            self.remove_expected_response(src_address);
             self.fail_request(request_call, RequestError::InvalidRemotePacket, true)
                 .await;
             return;
@@ -710,6 +712,8 @@ impl Handler {
             Ok(v) => v,
             Err(e) => {
                 error!(error = ?e, "Could not generate a session");
+                // The request was taken out of the active requests above: drop its expected response.
+                self.remove_expected_response(src_address);
                 self.fail_request(request_call, RequestError::InvalidRemotePacket, true)
                     .await;
                 return;
@@ -922,6 +926,8 @@ impl Handler {
                         error = ?e,
                         "Invalid Authentication header. Dropping session",
                     );
+                    // The challenge was consumed above: drop its expected response.
+                    self.remove_expected_response(node_address.socket_addr);
                     self.fail_session(&node_address, RequestError::InvalidRemotePacket, true)
                         .await;
                 }
